@@ -306,6 +306,7 @@ TamperedR1(p, what, k, d) ==
     [] what = "commit" -> [p EXCEPT !.commit[k] = Add(@, d)]
     [] what = "trunc"  -> [p EXCEPT !.commit = SubSeq(@, 1, Len(@) - 1)]
     [] what = "extend" -> [p EXCEPT !.commit = Append(@, d)]
+    [] what = "empty"  -> [p EXCEPT !.commit = << >>]
 
 ActTamperR1(out, h, what, k, d) ==
   /\ Has(h)
